@@ -12,7 +12,8 @@
       op   = (1 u key)   upload of key starts in slot u          | (2 u n) next n bytes
            | (3 u code)  the source ends (0 = EOF, else error)   | (4 u)   rest of the bytes, EOF
            | (5 key)     Get                                     | (6 (key ...)) FindMissing
-           | (7 ok)      the pending DataSyncer call returns     | (8 ok) the pending state write returns
+           | (7 ok)      the pending DataSyncer call returns     | (8 m) the pending state write returns (1 nil, 0 error;
+                                                                   directory store: 2 rename fails, 3 fsync fails)
            | (9 d)       clock += d                              | (10 who) fire the due timer of a loop
            | (11)        cancel the context (shutdown request)
            | (12)        cancel and let the syncer run until ProcessBlockPut returned false
